@@ -437,6 +437,42 @@ class RefCPU:
             self.branch_to(self.exc_vector_base() + 16)
         self.events.append('dabort')
 
+    def _take_interrupt(self, fiq):
+        pc = self.R(15)
+        new_lr = pc if self.T else (pc - 4) & 0xFFFFFFFF
+        new_spsr = self.cpsr()
+        vect_offset = 28 if fiq else 24
+        scr = self.s['scr']
+        hcr = self.s['hcr']
+        scr_bit = (scr >> (2 if fiq else 1)) & 1
+        hcr_bit = (hcr >> (3 if fiq else 4)) & 1
+        route_to_monitor = self.have_sec() and scr_bit == 1
+        route_to_hyp = ((self.have_virt() and self.have_sec() and scr_bit == 0 and hcr_bit == 1 and not self.is_secure())
+                        or self.mode == M_HYP)
+        if route_to_monitor:
+            if self.mode == M_MON:
+                self.s['scr'] &= ~1
+            self.enter_monitor(new_spsr, new_lr, vect_offset)
+        elif route_to_hyp:
+            self.unknown.add('hsr')
+            self.enter_hyp(new_spsr, (new_lr - 4) & 0xFFFFFFFF, vect_offset)
+        else:
+            nonsec_masked = self.have_sec() and not self.have_virt() and (scr & 1) == 1
+            set_a = (not nonsec_masked) or (scr >> 5) & 1 == 1
+            set_f = fiq and ((not nonsec_masked) or (scr >> 4) & 1 == 1)
+            self._enter_common(M_FIQ if fiq else M_IRQ, new_spsr, new_lr, set_a=set_a, set_f=set_f)
+            if self.sctlr(24):
+                self.branch_to(self.cfg['impdef_fiq_vector' if fiq else 'impdef_irq_vector'])
+            else:
+                self.branch_to(self.exc_vector_base() + vect_offset)
+        self.events.append('fiq' if fiq else 'irq')
+
+    def take_irq(self):
+        self._take_interrupt(False)
+
+    def take_fiq(self):
+        self._take_interrupt(True)
+
     def take_hyp_trap(self):
         pc = self.R(15)
         preferred = (pc - 4 if self.T else pc - 8) & 0xFFFFFFFF
